@@ -642,10 +642,10 @@ def _check_ragged(ctx, prog, exp_ci):
                                                      it.func.attr == "groupby")
             if not grouped:
                 continue
+            loop_vars = {x.id for x in ast.walk(loop.target) if isinstance(x, ast.Name)}     # `for g in ...` / `for key, rows in ...`
             per_group = {st.targets[0].id for st in loop.body if isinstance(st, ast.Assign) and isinstance(st.targets[0], ast.Name)
-                         and any(isinstance(x, ast.Name) and isinstance(loop.target, ast.Name) and x.id == loop.target.id
-                                 for x in ast.walk(st.value)) and any(isinstance(x, ast.Attribute) and x.attr in ("values", "index")
-                                                                      for x in ast.walk(st.value))}
+                         and any(isinstance(x, ast.Name) and x.id in loop_vars for x in ast.walk(st.value)) and
+                         any(isinstance(x, ast.Attribute) and x.attr in ("values", "index") for x in ast.walk(st.value))}
             lists = {c.func.value.id for st in loop.body for c in calls_in(st) if isinstance(c.func, ast.Attribute) and
                      c.func.attr == "append" and isinstance(c.func.value, ast.Name) and c.args and isinstance(c.args[0], ast.Name)
                      and c.args[0].id in per_group}
